@@ -347,27 +347,18 @@ func checkSearch(r *kit.Run, c Case) {
 		return
 	}
 	if res.Exhausted {
-		if c.Family == "large" {
-			// beyond the logarithmic budget: tell linear from endless with a
-			// second, much larger budget
-			big := 8 * budget
-			res2 := runSearch(d, t, big, 0, 0)
-			r.Add("requests_total", int64(len(res2.Reqs)))
-			if !res2.Exhausted && !res2.Hung {
-				r.Add("over_budget", 1)
-				viol(r, "request-count/"+sit,
-					fmt.Sprintf("%s: %d requests, budget 10+4*log2(N)+gap*(log2(N)+2) = %d; requests: %s",
-						desc, len(res2.Reqs), budget, trace(res2.Reqs, d, 60)), ac)
-				return
-			}
-			r.Add("nonterminating", 1)
-			viol(r, "nonterminating/"+cycleClass(res2.Reqs, d),
-				fmt.Sprintf("%s: no termination within %d requests (logarithmic budget %d); requests: %s",
-					desc, big, budget, trace(res2.Reqs, d, 60)), ac)
+		cyc := cycleClass(res.Reqs, d)
+		if c.Family == "large" && cyc == "no-cycle" {
+			// beyond the logarithmic budget without going round in circles:
+			// linear stepping (or an endless search that never repeats itself)
+			r.Add("over_budget", 1)
+			viol(r, "request-count/"+sit,
+				fmt.Sprintf("%s: no result within %d requests = 10+4*ceil(log2 N)+gap*(ceil(log2 N)+2), and the requests do not repeat; requests: %s",
+					desc, budget, trace(res.Reqs, d, 60)), ac)
 			return
 		}
 		r.Add("nonterminating", 1)
-		viol(r, "nonterminating/"+cycleClass(res.Reqs, d),
+		viol(r, "nonterminating/"+cyc,
 			fmt.Sprintf("%s: no termination within %d requests; requests: %s", desc, budget, trace(res.Reqs, d, 40)), ac)
 		return
 	}
